@@ -170,6 +170,10 @@ class API:
     def only_raises(self, out, allowed, label=""):
         """raises(only=allowed): an exit by any other exception must be infeasible."""
         if out.raised and not isinstance(out.exc, allowed):
+            if isinstance(out.exc, AttributeError) and _missing_init_field(out.exc):
+                # the object under test was built by the unit without running __init__, and the code now reads a field
+                # that __init__ establishes (e.g. one added by an edit): the harness is out of date, the code is not at fault
+                raise core.Unsupported("harness object lacks the field %r that %s.__init__ sets" % (out.exc.name, type(out.exc.obj).__name__))
             site = _site(out.exc)
             if site == "?":
                 # no frame of /repo in the traceback: raised by the harness / a proxy, not by the code under proof
@@ -191,6 +195,25 @@ class API:
         """True when finding `fid` is listed as status=known (witness class is then excluded by
         the unit with an extra precondition)."""
         return fid in getattr(self, "known_ids", ())
+
+
+def _missing_init_field(exc):
+    """AttributeError for `obj.name` where some __init__ in type(obj)'s MRO assigns self.name."""
+    obj, name = getattr(exc, "obj", None), getattr(exc, "name", None)
+    if obj is None or not name or isinstance(obj, type):
+        return False
+    import re as _re
+    for klass in type(obj).__mro__:
+        init = vars(klass).get("__init__")
+        if init is None:
+            continue
+        try:
+            src = inspect.getsource(init)
+        except (OSError, TypeError):
+            continue
+        if _re.search(r"\bself\.%s\b\s*(?::[^=\n]+)?=[^=]" % _re.escape(name), src) or _re.search(r"\bself\.%s\s*," % _re.escape(name), src):
+            return True
+    return False
 
 
 def _site(exc):
